@@ -264,7 +264,8 @@ class Device:
                     svc, psz = emb[0], emb[1]
                     path, data = emb[2:2 + 2 * psz], emb[2 + 2 * psz:]
                     via = "unconnected_send:" + rest[2:].hex()
-                if svc == 0x01 and path == b"\x20\x01\x24\x01" and data == b"":
+                if svc == 0x01 and path == b"\x20\x01\x24\x01":
+                    # request data after the path is not this property's subject (C14): tolerated, like a device would
                     self.log.append("identity:" + via)
                     return self.rr_reply if ctx == CTX else self._hdr(0x6F, b"", status=3, ctx=ctx)
                 if svc in (0x54, 0x5B) and path == b"\x20\x06\x24\x01" and via == "ucmm":
